@@ -210,6 +210,9 @@ func (eng *Engine) scopeOfVar(fn *ssa.Function, a *ssa.Alloc) *types.Scope {
 					break
 				}
 			}
+			if sc == nil {
+				sc = implicitVarScope(p.TypesInfo, fn, a)
+			}
 		}
 	}
 	eng.varScopes[a] = sc
